@@ -2,6 +2,7 @@ INIT Init
 NEXT Next
 CONSTANTS
   Part = "entry"
+  Flaws = {}
   Thorough = FALSE
 INVARIANT LawWellFormed
 INVARIANT LawGuard
